@@ -159,6 +159,20 @@ func reportRaces(c *ctx) {
 	}
 }
 
+// proofBroken: the named tie lemma / theorem of this property's cone no longer checks on this tree
+// (the check then spends more effort searching for a failing input around what that lemma covers)
+func (c *ctx) proofBroken(name string) bool {
+	if c.Proof == nil {
+		return false
+	}
+	for _, t := range append(append([]zh.ProofItem{}, c.Proof.Theorems...), c.Proof.Ties...) {
+		if !t.OK && (name == "" || t.Name == name) {
+			return true
+		}
+	}
+	return false
+}
+
 func (c *ctx) n(quick, thorough int) int {
 	if c.Quick {
 		return quick
